@@ -3,6 +3,8 @@
 ** Exhaustive preemption-bounded exploration of real Cello threads (lib/vf_sched.h).
 **
 ** Params: scn=<scenario>  bound=<preemptions>  max=<schedule cap>
+**   scn=lockmix  lens=<a,b,..> ops=<alphabet over LTW> first=<first sections of thread 1>  |  prog=<P1+P2+..> (one program tuple)
+**   scn=tlshist  minlen=<n> len=<n> mincalls=<n> managed=<0|1>                               |  prog=<history, e.g. n0c0j0d0n0c0j0>
 ** Build:  hooks variant (-DCELLO_VERIF) + -Wl,--wrap=pthread_create,... (see checks/C13.py)
 */
 
@@ -326,9 +328,10 @@ static var body_abandon(var args) {
   done_flag[sch_me] = 1;
   return NULL;              /* no unlock */
 }
+static int abandon_tries = 3;   /* tries=<n>: attempts per thread (3 threads x 3 attempts is beyond an exhaustive bound-1 run) */
 static var body_try_after_abandon(var args) {
   int me = my_id();
-  for (int k = 0; k < 3; k++) {
+  for (int k = 0; k < abandon_tries; k++) {
     if (trylock(mtx)) {
       sch_fail("abandoned-mutex-acquired", "thread %d: trylock succeeded on a Mutex whose owner ended inside its critical section without unlocking", me);
       critical();
@@ -401,7 +404,7 @@ static var MIXIDX[SCH_MAXT];             /* static argument objects: the worker'
 static volatile int mix_holder, mix_holder_kind;   /* harness view: id+1 of the thread between its entry and its release */
 static volatile int mix_expected, mix_try_failed;
 
-static void mix_section(int me, char kind) {
+static void mix_critical_section(int me, char kind) {
   if (in_section || mix_holder)
     sch_fail("critical-sections-overlap", "thread %d entered its section through %s while thread %d, which entered through %s, was still inside the section guarded by the same Mutex",
       me, kind == 'L' ? "lock" : kind == 'T' ? "trylock" : "a with block", mix_holder - 1, mix_holder_kind == 'L' ? "lock" : mix_holder_kind == 'T' ? "trylock" : "a with block");
@@ -421,9 +424,9 @@ static var body_mix(var args) {
   int me = my_id();
   const char* p = mix_prog[c_int(get(args, $I(0)))];
   for (; *p; p++) {
-    if (*p == 'L') { lock(mtx); mix_section(me, 'L'); unlock(mtx); __sync_fetch_and_add(&mix_expected, 1); }
+    if (*p == 'L') { lock(mtx); mix_critical_section(me, 'L'); unlock(mtx); __sync_fetch_and_add(&mix_expected, 1); }
     else if (*p == 'T') {
-      if (trylock(mtx)) { mix_section(me, 'T'); unlock(mtx); __sync_fetch_and_add(&mix_expected, 1); }
+      if (trylock(mtx)) { mix_critical_section(me, 'T'); unlock(mtx); __sync_fetch_and_add(&mix_expected, 1); }
       else {
         /* under the scheduler nothing runs between the library's attempt and this line, and the harness view changes only
         ** while the Mutex is held: a refusal with nobody inside is "busy" reported for a free Mutex */
@@ -431,7 +434,7 @@ static var body_mix(var args) {
         __sync_fetch_and_add(&mix_try_failed, 1);
       }
     }
-    else { with (m in mtx) { mix_section(me, 'W'); } __sync_fetch_and_add(&mix_expected, 1); }
+    else { with (m in mtx) { mix_critical_section(me, 'W'); } __sync_fetch_and_add(&mix_expected, 1); }
   }
   done_flag[me] = 1;
   return NULL;
@@ -465,7 +468,6 @@ static void scn_lockmix(void) {
 #define HIST_MAXRUN 8
 static const char* hist_key[HIST_KEYS] = { "ka", "kb" };
 static char hist_prog[40];
-static var hist_th[2];
 static var hist_model[2][HIST_KEYS];       /* what earlier runs of the Thread object now in the slot left in its storage */
 static int hist_model_run[2][HIST_KEYS];
 static int hist_gen[2], hist_ngen, hist_obj_runs[2];   /* the how-manieth Thread object created is in the slot; how often it was run */
@@ -510,6 +512,7 @@ static var body_hist(var args) {
 }
 
 static void scn_tlshist(void) {
+  var hist_th[2] = { NULL, NULL };   /* on this stack: a collector-managed Thread object stays reachable */
   var fobj = $(Function, body_hist);
   set(current(Thread), $S("ka"), HISTMAIN);
   for (const char* p = hist_prog; p[0] && p[1]; p += 2) {
@@ -575,7 +578,8 @@ static void mix_enumerate(struct sch_explorer* ex, const char* ops, const int* m
     for (;;) {
       for (int i = 0; i < len; i++) mix_prog[t][i] = ops[idx[i]];
       mix_prog[t][len] = 0;
-      mix_enumerate(ex, ops, maxlen, t + 1);
+      /* first=<ops>: only the programs of thread 1 that begin with one of these (splits the family over instances) */
+      if (!(t == 0 && !strchr(vf_param("first", ops), mix_prog[0][0]))) mix_enumerate(ex, ops, maxlen, t + 1);
       int i = len - 1;
       while (i >= 0 && ++idx[i] == nops) idx[i--] = 0;
       if (i < 0) break;
@@ -622,7 +626,7 @@ static void run_free(struct sch_explorer* ex, int runs) {
   vf.phase = ex->name;
   char path[256];
   for (int k = 0; k < runs; k++) {
-    snprintf(path, sizeof path, "tsan-%s-%d.log", vf_param("scn", "x"), k);
+    snprintf(path, sizeof path, "tsan-%s%s%s-%d.log", vf_param("scn", "x"), vf_param("prog", NULL) ? "-" : "", vf_param("prog", ""), k);
     for (char* c = path; *c; c++) if (*c == '/' || *c == '+') *c = '_';
     fflush(NULL);
     pid_t pid = fork();
@@ -719,7 +723,7 @@ int main(int argc, char** argv) {
     static int64_t solo_r[SCH_MAXT]; the_solo = solo_r; the_solo[1] = seq_ref(1);
     ex.scenario = scn_rerun;
   } else if (strcmp(scn, "abandon") == 0) {
-    ex.scenario = scn_abandon; ex.site_mask = 0;
+    ex.scenario = scn_abandon; ex.site_mask = 0; abandon_tries = (int)vf_param_i("tries", 3);
   } else if (strcmp(scn, "join") == 0) {
     ex.scenario = scn_join; ex.site_mask = thr_sites;
   } else {
